@@ -22,6 +22,7 @@ func rulesC15(c *Ctx) {
 	p := c.P
 	// the patterns find the end of the quoted password at the first unescaped quote
 	stringEndRule(c, "C15.strend")
+	freshBufC15(c)
 	// ---- no reader ----
 	c.Rule("C15.noreader", "the Password fields of CreateUserStatement and SetPasswordUserStatement are stored by their parse functions and read nowhere in the package: no printer, formatter or encoder can leak what it never loads; statements holding a password are never handed to fmt by value")
 	nStore, nRead := 0, 0
@@ -256,6 +257,102 @@ func matchIndexConst(v ssa.Value) int64 {
 		}
 	}
 	return -1
+}
+
+// freshBufC15: each redaction pass writes into an empty buffer.
+func freshBufC15(c *Ctx) {
+	p := c.P
+	c.Rule("C15.freshbuf", "the buffer a redaction pass of Sanitize assembles its output in is created (or Reset) after that pass's search: a buffer shared by both passes still holds the first pass's output, in which the second clause's password is in the clear, and the result is that text followed by the redacted one")
+	sf := p.SSAFunc(p.Func("Sanitize"))
+	if sf == nil {
+		c.Unk("C15.freshbuf", "Sanitize", 0, "anchor not found")
+		return
+	}
+	var finds []*ssa.Call
+	for _, b := range sf.Blocks {
+		for _, in := range b.Instrs {
+			if call, ok := in.(*ssa.Call); ok && call.Call.StaticCallee() != nil && strings.HasPrefix(call.Call.StaticCallee().Name(), "FindAll") {
+				finds = append(finds, call)
+			}
+		}
+	}
+	// builders and the blocks that write into them / reset them
+	type buf struct {
+		alloc  *ssa.Alloc
+		writes []*ssa.BasicBlock
+		resets []*ssa.BasicBlock
+	}
+	var bufs []*buf
+	for _, b := range sf.Blocks {
+		for _, in := range b.Instrs {
+			a, ok := in.(*ssa.Alloc)
+			if !ok {
+				continue
+			}
+			ts := a.Type().(*types.Pointer).Elem().String()
+			if ts != "strings.Builder" && ts != "bytes.Buffer" {
+				continue
+			}
+			bf := &buf{alloc: a}
+			for _, ref := range *a.Referrers() {
+				if call, ok := ref.(*ssa.Call); ok && call.Call.StaticCallee() != nil {
+					switch nm := call.Call.StaticCallee().Name(); {
+					case strings.HasPrefix(nm, "Write"):
+						bf.writes = append(bf.writes, call.Block())
+					case nm == "Reset":
+						bf.resets = append(bf.resets, call.Block())
+					}
+				}
+			}
+			bufs = append(bufs, bf)
+		}
+	}
+	n := 0
+	for _, bf := range bufs {
+		if len(bf.writes) == 0 {
+			continue
+		}
+		// the passes that write into this buffer: a pass owns the writes its
+		// search dominates and that no later search dominates
+		passes := map[*ssa.Call]bool{}
+		for _, w := range bf.writes {
+			var owner *ssa.Call
+			for _, f := range finds {
+				if f.Block().Dominates(w) {
+					if owner == nil || owner.Block().Dominates(f.Block()) {
+						owner = f
+					}
+				}
+			}
+			if owner != nil {
+				passes[owner] = true
+			}
+		}
+		n++
+		key := fmt.Sprintf("Sanitize: output buffer #%d", n)
+		bad := false
+		for f := range passes {
+			fresh := f.Block().Dominates(bf.alloc.Block()) && f.Block() != bf.alloc.Block() || f.Block() == bf.alloc.Block()
+			if !fresh {
+				for _, r := range bf.resets {
+					if f.Block().Dominates(r) {
+						fresh = true
+					}
+				}
+			}
+			if !fresh && len(passes) > 1 {
+				bad = true
+			}
+		}
+		if bad {
+			c.Bad("C15.freshbuf", key, bf.alloc.Pos(), "one buffer collects the output of more than one pass and is neither created nor reset after the later search: that pass's output is appended to the earlier one's")
+		} else {
+			c.OK("C15.freshbuf", key, bf.alloc.Pos(), "created for one pass")
+		}
+	}
+	if n == 0 {
+		c.OK("C15.freshbuf", "Sanitize: output buffers", sf.Pos(), "no buffer is written (the text is spliced in place)")
+	}
 }
 
 // backwardSplice: the sliced string is the searched text as rewritten by
